@@ -58,6 +58,7 @@ def run_tasks(tasks, prop, tier, overlays, scratch, timeout):
             cmd = [PY, "-P", "-m", "vf.worker", "--prop", prop, "--tier", tier,
                    "--out", t.out, "--journal", t.journal] + t.args
             env = overlay.env_for(t.flavour, overlays[t.flavour])
+            env.update(getattr(t, "extra_env", {}))
             t.errf = open(t.err, "wb")
             t.proc = subprocess.Popen(cmd, cwd=ROOT, env=env, stdout=t.errf, stderr=t.errf)
             running.append(t)
@@ -353,10 +354,13 @@ def _main(prop, tier, seed, replay_file, scratch, t0):
     for s in stages:
         n = max(1, min(s["shards"], 64))
         for i in range(n):
-            tasks.append(Task("stage", ["--stage", s["name"], "--shard", str(i), "--nshards", str(n),
-                                        "--seed", str(seed), "--known", "|".join(active),
-                                        "--shrink-limit", "45" if tier == "quick" else "240"],
-                              s["flavour"], (s["name"], i)))
+            t = Task("stage", ["--stage", s["name"], "--shard", str(i), "--nshards", str(n),
+                               "--seed", str(seed), "--known", "|".join(active),
+                               "--shrink-limit", "45" if tier == "quick" else "240"],
+                     s["flavour"], (s["name"], i))
+            if s.get("instrument"):
+                t.extra_env = {"VERIF_FUZZ_INSTRUMENT": ",".join(s["instrument"])}
+            tasks.append(t)
     run_tasks(tasks, prop, tier, overlays, scratch, budget)
 
     per_stage = {}
